@@ -1,7 +1,7 @@
 (* C07 — retrieval is total and only ever narrows the callable's own signature
    (the part that is logic). *)
 From Sigtools.Model Require Import Base Bind Algebra Visitor Discover.
-From Sigtools.Proofs Require Import SmallModel Basics Discover.
+From Sigtools.Proofs Require Import SmallModel Basics Discover VisitorTotal.
 
 (* the fallback chain: discovery yields the plain signature or a well-formed one;
    no error value exists in the model's result type *)
@@ -24,3 +24,20 @@ Theorem C07_narrow_decider_complete a b :
   forall c, noncolliding c a [b] = true -> accepts a c = true -> accepts b c = true.
 Proof. exact (incl_cex_complete a b). Qed.
 Print Assumptions C07_narrow_decider_complete.
+
+(* the AST walker (Namespace / markers / CallListerVisitor with its deferred
+   nested-scope calls) is total: on every tree, whatever nodes it contains, the
+   model never runs out of fuel (fuel = number of Call nodes + 1) *)
+Theorem C07_visitor_total fargs fkwonly va kw body :
+  visit_function fargs fkwonly va kw body <> None.
+Proof. exact (visit_function_total fargs fkwonly va kw body). Qed.
+Print Assumptions C07_visitor_total.
+
+(* while the deferred calls are being processed nothing is deferred again, and a
+   visit never queues more calls than the tree contains *)
+Theorem C07_walk_bounded n force st :
+  v_rev (walk force n st) = v_rev st /\
+  (v_rev st = true -> v_todo (walk force n st) = v_todo st) /\
+  (length (v_todo (walk force n st)) <= length (v_todo st) + count_calls n)%nat.
+Proof. exact (proj1 (proj1 (walk_keeps n)) force st). Qed.
+Print Assumptions C07_walk_bounded.
